@@ -5,6 +5,7 @@ import abc
 
 from numpy.random import choice
 
+from jaqalpaq.error import JaqalError
 from jaqalpaq.core.result import ExecutionResult, Readout
 from jaqalpaq.core.result import ProbabilisticSubcircuit
 from jaqalpaq.core.algorithm.walkers import TraceVisitor, DiscoverSubcircuits
@@ -48,7 +49,9 @@ class AbstractBackend:
         try:
             (register,) = registers
         except ValueError:
-            raise NotImplementedError("Multiple fundamental registers unsupported.")
+            raise JaqalError(
+                f"Circuit must have exactly one fundamental register, found {len(registers)}"
+            )
 
         return register.size
 
